@@ -220,6 +220,8 @@ pub struct SrcCore {
     /// blocking class only: non-`Interrupted` errors in the lane are served as fatal errors
     pub allow_fatal: bool,
     pub fatal_served: Option<ErrKind>,
+    /// overwrite the part of the caller's buffer that was NOT filled (its content is unspecified by the Read contract)
+    pub scribble: bool,
     pub obs: Rc<RefCell<Obs>>,
 }
 
@@ -239,6 +241,7 @@ impl SrcCore {
             wakers_seen: 0,
             allow_fatal: false,
             fatal_served: None,
+            scribble: false,
             obs,
         }))
     }
@@ -333,6 +336,12 @@ impl SrcCore {
                 }
                 let n = k.min(avail).min(buf.len());
                 buf[..n].copy_from_slice(&self.data[self.pos..self.pos + n]);
+                if self.scribble {
+                    for b in buf[n..].iter_mut() {
+                        *b = 0xDD;
+                    }
+                    obs.fault(fk::scribble_unfilled);
+                }
                 self.pos += n;
                 let short = n < buf.len();
                 let after = self.layout.phase(self.pos);
